@@ -134,7 +134,7 @@ UNITS = {
                    support_files=['gen.rs', 'harness_raw.rs'], match=r'_leakcheck$', configs=['stdleak'],
                    module={'harness_raw_life.rs': 'lru::raw::verif_hooks::harness_life', 'harness_segmented.rs': 'lru::segmented::verif_hooks::harness',
                            'harness_two_queue.rs': 'lru::two_queue::verif_hooks::harness', 'harness_adaptive.rs': 'lru::adaptive::verif_hooks::harness'},
-                   n=dict(quick=1, thorough=2), bound='each list <= {N} entries; 32 tracked object ids',
+                   n=dict(quick=2, thorough=2), bound='each list <= {N} entries; 32 tracked object ids',
                    timeout=dict(quick=2400, thorough=7200),
                    functions=[dict(function=f, file='src/lru/*.rs', line=0, props=['C04', 'C03'])
                               for f in ['RawLRU::{put, remove, remove_lru, purge, resize, drop}', 'SegmentedCache::{put, put_protected, drop}', 'TwoQueueCache::{put, drop}', 'AdaptiveCache::{put, replace, drop}']],
